@@ -26,6 +26,7 @@ Record cfg := mkCfg {
   wait_arms : list arm;     (* call: the select that waits for completion *)
   fsend_arms : list arm;    (* handleMessage: handing a fetch request to serve *)
   frecv_arms : list arm;    (* handleMessage: waiting for serve's answer *)
+  box_arms : list arm;      (* connMailBox.receive: a side dial waiting for its side connection *)
   calls_cap : N;            (* cap(tr.calls) *)
   fetch_cap : N             (* cap(tr.pendingFetch) *)
 }.
@@ -42,6 +43,7 @@ Inductive cpc :=
 | CStart      (* in asyncCall, before the shutdown check *)
 | CEnq        (* at the enqueue select *)
 | CWait       (* at the wait select *)
+| CBox        (* side dial only: the call succeeded; waiting in connMailBox.receive *)
 | CRet        (* call returned *)
 | CFront.     (* closeAll only: the front connection has been closed *)
 
@@ -49,7 +51,8 @@ Record caller := mkCaller {
   c_ctx : ctxk;
   c_pc : cpc;
   c_sd : bool;        (* a msgShutdown call *)
-  c_closeall : bool   (* tunnel.Close inside closeAll: the front conn is closed after it returns *)
+  c_closeall : bool;  (* tunnel.Close inside closeAll: the front conn is closed after it returns *)
+  c_side : bool       (* endpointClient.Dial in a side mode: after the call, wait for the side connection *)
 }.
 
 Inductive rstate :=
@@ -71,11 +74,13 @@ Record state := mkState {
   readerr : bool;           (* readErr holds a value *)
   taken : list N;           (* ghost: calls serve has received from tr.calls *)
   dropped : list N;         (* ghost: exchanges removed by a mistyped reply *)
-  callers : list (N * caller)
+  callers : list (N * caller);
+  okc : list N;             (* exchanges completed by a matching reply (done() with err == nil) *)
+  delivered : list N        (* side dials whose side connection has been put into their mailbox *)
 }.
 
 Definition init : state :=
-  mkState SRun false false [] [] [] [] RIdle false [] [] [].
+  mkState SRun false false [] [] [] [] RIdle false [] [] [] [] [].
 
 Fixpoint getc (c : N) (l : list (N * caller)) : option caller :=
   match l with
@@ -100,7 +105,9 @@ Fixpoint rem (c : N) (l : list N) : list N :=
 Definition lenN {A} (l : list A) : N := N.of_nat (List.length l).
 
 Inductive action :=
-| ANew (c : N) (k : ctxk) (sd closeall : bool)   (* a goroutine enters transport.call *)
+| ANew (c : N) (k : ctxk) (sd closeall side : bool)   (* a goroutine enters transport.call *)
+| ABox (c : N) (i : nat)    (* side dial: arm i of connMailBox.receive's select fires *)
+| ADeliver (c : N)          (* serveBackSide delivers the side connection for dial c *)
 | ACheck (c : N)            (* asyncCall's shutdown handling *)
 | AEnq (c : N) (i : nat)    (* arm i of the enqueue select fires *)
 | AWait (c : N) (i : nat)   (* arm i of the wait select fires *)
@@ -134,7 +141,10 @@ Definition caller_arm_ready (s : state) (c : N) (x : caller) (a : arm) : bool :=
       else if String.eqb ch "tr.serveDone" then
         match serve s with SDone => true | _ => false end
       else if String.eqb ch "done" then mem c (donec s)
-      else false
+      else if String.eqb ch "b.ch" then mem c (delivered s)
+      else if String.eqb ch "gone" then
+        match serve s with SDone => true | _ => false end
+      else false            (* "b.closed": only the dial's own clean-up closes it *)
   | ASend ch =>
       if String.eqb ch "tr.calls" then (lenN (queue s) <? calls_cap g)%N else false
   | ADefault => true
@@ -157,13 +167,17 @@ Local Close Scope string_scope.
 
 Definition set_caller (c : N) (x : caller) (s : state) : state :=
   mkState (serve s) (sigc s) (shutc s) (queue s) (pend s) (donec s) (fetchq s)
-          (reader s) (readerr s) (taken s) (dropped s) (setc c x (callers s)).
+          (reader s) (readerr s) (taken s) (dropped s) (setc c x (callers s))
+          (okc s) (delivered s).
 
 Definition with_pc (x : caller) (p : cpc) : caller :=
-  mkCaller (c_ctx x) p (c_sd x) (c_closeall x).
+  mkCaller (c_ctx x) p (c_sd x) (c_closeall x) (c_side x).
 
 Definition is_send (a : arm) : bool :=
   match a with ASend _ => true | _ => false end.
+
+Definition is_ctx_arm (a : arm) : bool :=
+  match a with ARecv ch => String.eqb ch "ctx.Done()" | _ => false end.
 
 Definition is_sd (s : state) (c : N) : bool :=
   match getc c (callers s) with Some x => c_sd x | None => false end.
@@ -171,11 +185,26 @@ Definition is_sd (s : state) (c : N) : bool :=
 (** One step; [None] when the action is not enabled. *)
 Definition step (s : state) (a : action) : option state :=
   match a with
-  | ANew c k sd ca =>
+  | ANew c k sd ca sidef =>
       match getc c (callers s) with
       | Some _ => None
-      | None => Some (set_caller c (mkCaller k CStart sd ca) s)
+      | None => Some (set_caller c (mkCaller k CStart sd ca sidef) s)
       end
+  | ABox c i =>
+      match getc c (callers s) with
+      | Some x =>
+          match c_pc x, nth_error (box_arms g) i with
+          | CBox, Some a =>
+              if caller_arm_ready s c x a && negb (is_send a)
+              then Some (set_caller c (with_pc x CRet) s) else None
+          | _, _ => None
+          end
+      | None => None
+      end
+  | ADeliver c =>
+      Some (mkState (serve s) (sigc s) (shutc s) (queue s) (pend s) (donec s) (fetchq s)
+                    (reader s) (readerr s) (taken s) (dropped s) (callers s) (okc s)
+                    (c :: delivered s))
   | ACheck c =>
       match getc c (callers s) with
       | Some x =>
@@ -187,7 +216,7 @@ Definition step (s : state) (a : action) : option state :=
                 else Some (set_caller c (with_pc x CEnq)
                              (mkState (serve s) true (shutc s) (queue s) (pend s) (donec s)
                                       (fetchq s) (reader s) (readerr s) (taken s) (dropped s)
-                                      (callers s)))
+                                      (callers s) (okc s) (delivered s)))
               else if sigc s then Some (set_caller c (with_pc x CRet) s)
               else Some (set_caller c (with_pc x CEnq) s)
           | _ => None
@@ -204,7 +233,7 @@ Definition step (s : state) (a : action) : option state :=
                   Some (set_caller c (with_pc x CWait)
                           (mkState (serve s) (sigc s) (shutc s) (queue s ++ [c]) (pend s) (donec s)
                                    (fetchq s) (reader s) (readerr s) (taken s) (dropped s)
-                                   (callers s)))
+                                   (callers s) (okc s) (delivered s)))
                 else Some (set_caller c (with_pc x CRet) s)
               else None
           | _, _ => None
@@ -217,7 +246,13 @@ Definition step (s : state) (a : action) : option state :=
           match c_pc x, nth_error (wait_arms g) i with
           | CWait, Some a =>
               if caller_arm_ready s c x a && negb (is_send a)
-              then Some (set_caller c (with_pc x CRet) s) else None
+              then
+                (* call() returns nil iff done() ran with a nil error (also when it
+                   notices serveDone first: it re-checks done); ctx.Done wins as an error *)
+                if c_side x && mem c (okc s) && negb (is_ctx_arm a)
+                then Some (set_caller c (with_pc x CBox) s)
+                else Some (set_caller c (with_pc x CRet) s)
+              else None
           | _, _ => None
           end
       | None => None
@@ -235,7 +270,7 @@ Definition step (s : state) (a : action) : option state :=
       match getc c (callers s) with
       | Some x =>
           match c_ctx x with
-          | CtxOpen => Some (set_caller c (mkCaller CtxFired (c_pc x) (c_sd x) (c_closeall x)) s)
+          | CtxOpen => Some (set_caller c (mkCaller CtxFired (c_pc x) (c_sd x) (c_closeall x) (c_side x)) s)
           | _ => None
           end
       | None => None
@@ -246,13 +281,13 @@ Definition step (s : state) (a : action) : option state :=
           let sd := is_sd s c in
           if shutc s then
             Some (mkState SRun (sigc s) true rest (pend s) (c :: donec s) (fetchq s)
-                          (reader s) (readerr s) (c :: taken s) (dropped s) (callers s))
+                          (reader s) (readerr s) (c :: taken s) (dropped s) (callers s) (okc s) (delivered s))
           else if ok then
             Some (mkState SRun (sigc s) sd rest (c :: rem c (pend s)) (donec s) (fetchq s)
-                          (reader s) (readerr s) (c :: taken s) (dropped s) (callers s))
+                          (reader s) (readerr s) (c :: taken s) (dropped s) (callers s) (okc s) (delivered s))
           else
             Some (mkState SFailing (sigc s) sd rest (pend s) (c :: donec s) (fetchq s)
-                          (reader s) (readerr s) (c :: taken s) (dropped s) (callers s))
+                          (reader s) (readerr s) (c :: taken s) (dropped s) (callers s) (okc s) (delivered s))
       | _, _ => None
       end
   | AFetch =>
@@ -262,7 +297,7 @@ Definition step (s : state) (a : action) : option state :=
             let found := mem c (pend s) in
             Some (mkState SRun (sigc s) (shutc s) (queue s) (rem c (pend s)) (donec s) rest
                           (RHave (if found then Some c else None) good) (readerr s) (taken s)
-                          (if found && negb good then c :: dropped s else dropped s) (callers s))
+                          (if found && negb good then c :: dropped s else dropped s) (callers s) (okc s) (delivered s))
           else None
       | _, _, _ => None
       end
@@ -271,7 +306,7 @@ Definition step (s : state) (a : action) : option state :=
       | SRun =>
           if readerr s then
             Some (mkState SFailing (sigc s) (shutc s) (queue s) (pend s) (donec s) (fetchq s)
-                          (reader s) false (taken s) (dropped s) (callers s))
+                          (reader s) false (taken s) (dropped s) (callers s) (okc s) (delivered s))
           else None
       | _ => None
       end
@@ -279,21 +314,21 @@ Definition step (s : state) (a : action) : option state :=
       match serve s with
       | SFailing =>
           Some (mkState SClosing (sigc s) (shutc s) (queue s) [] (pend s ++ donec s) (fetchq s)
-                        (reader s) (readerr s) (taken s) (dropped s) (callers s))
+                        (reader s) (readerr s) (taken s) (dropped s) (callers s) (okc s) (delivered s))
       | _ => None
       end
   | ACloseDone =>
       match serve s with
       | SClosing =>
           Some (mkState SDone (sigc s) (shutc s) (queue s) (pend s) (donec s) (fetchq s)
-                        (reader s) (readerr s) (taken s) (dropped s) (callers s))
+                        (reader s) (readerr s) (taken s) (dropped s) (callers s) (okc s) (delivered s))
       | _ => None
       end
   | AFrame c good =>
       match reader s with
       | RIdle =>
           Some (mkState (serve s) (sigc s) (shutc s) (queue s) (pend s) (donec s) (fetchq s)
-                        (RSend c good) (readerr s) (taken s) (dropped s) (callers s))
+                        (RSend c good) (readerr s) (taken s) (dropped s) (callers s) (okc s) (delivered s))
       | _ => None
       end
   | ARSend i =>
@@ -303,11 +338,11 @@ Definition step (s : state) (a : action) : option state :=
             if is_send a then
               Some (mkState (serve s) (sigc s) (shutc s) (queue s) (pend s) (donec s)
                             (fetchq s ++ [c]) (RRecv c good) (readerr s) (taken s) (dropped s)
-                            (callers s))
+                            (callers s) (okc s) (delivered s))
             else
               (* gives up: handleMessage returns an error, serveRead returns *)
               Some (mkState (serve s) (sigc s) (shutc s) (queue s) (pend s) (donec s) (fetchq s)
-                            RExit true (taken s) (dropped s) (callers s))
+                            RExit true (taken s) (dropped s) (callers s) (okc s) (delivered s))
           else None
       | _, _ => None
       end
@@ -316,7 +351,7 @@ Definition step (s : state) (a : action) : option state :=
       | RRecv c good, Some a =>
           if reader_arm_ready s a && negb (is_send a) then
             Some (mkState (serve s) (sigc s) (shutc s) (queue s) (pend s) (donec s) (fetchq s)
-                          RExit true (taken s) (dropped s) (callers s))
+                          RExit true (taken s) (dropped s) (callers s) (okc s) (delivered s))
           else None
       | _, _ => None
       end
@@ -326,20 +361,20 @@ Definition step (s : state) (a : action) : option state :=
           (* done(); the reply to a msgShutdown call ends serveRead (io.EOF) *)
           if is_sd s c then
             Some (mkState (serve s) (sigc s) (shutc s) (queue s) (pend s) (c :: donec s) (fetchq s)
-                          RExit true (taken s) (dropped s) (callers s))
+                          RExit true (taken s) (dropped s) (callers s) (c :: okc s) (delivered s))
           else
             Some (mkState (serve s) (sigc s) (shutc s) (queue s) (pend s) (c :: donec s) (fetchq s)
-                          RIdle (readerr s) (taken s) (dropped s) (callers s))
+                          RIdle (readerr s) (taken s) (dropped s) (callers s) (c :: okc s) (delivered s))
       | RHave _ _ =>
           Some (mkState (serve s) (sigc s) (shutc s) (queue s) (pend s) (donec s) (fetchq s)
-                        RIdle (readerr s) (taken s) (dropped s) (callers s))
+                        RIdle (readerr s) (taken s) (dropped s) (callers s) (okc s) (delivered s))
       | _ => None
       end
   | AReaderStop =>
       match reader s with
       | RIdle =>
           Some (mkState (serve s) (sigc s) (shutc s) (queue s) (pend s) (donec s) (fetchq s)
-                        RExit true (taken s) (dropped s) (callers s))
+                        RExit true (taken s) (dropped s) (callers s) (okc s) (delivered s))
       | _ => None
       end
   end.
@@ -362,6 +397,7 @@ Definition caller_enabled (s : state) (c : N) : bool :=
       | CStart => true
       | CEnq => existsb (caller_arm_ready s c x) (enq_arms g)
       | CWait => existsb (fun a => caller_arm_ready s c x a && negb (is_send a)) (wait_arms g)
+      | CBox => existsb (fun a => caller_arm_ready s c x a && negb (is_send a)) (box_arms g)
       | CRet => c_closeall x
       | CFront => false
       end
@@ -372,9 +408,10 @@ Definition caller_enabled (s : state) (c : N) : bool :=
     (and, for closeAll, the front connection is closed). *)
 Definition measure (x : caller) : nat :=
   match c_pc x with
-  | CStart => 4
-  | CEnq => 3
-  | CWait => 2
+  | CStart => 5
+  | CEnq => 4
+  | CWait => 3
+  | CBox => 2
   | CRet => if c_closeall x then 1 else 0
   | CFront => 0
   end.
@@ -388,7 +425,7 @@ Definition finished (x : caller) : bool :=
 
 Definition is_caller_step (c : N) (a : action) : bool :=
   match a with
-  | ACheck c' | AEnq c' _ | AWait c' _ | AFront c' => c =? c'
+  | ACheck c' | AEnq c' _ | AWait c' _ | AFront c' | ABox c' _ => c =? c'
   | _ => false
   end.
 
@@ -417,7 +454,8 @@ Definition guarded (g : cfg) : bool :=
   has_arm (ARecv "tr.serveDone") (enq_arms g) &&
   has_arm (ARecv "tr.serveDone") (wait_arms g) &&
   has_arm (ARecv "tr.serveDone") (fsend_arms g) &&
-  has_arm (ARecv "tr.serveDone") (frecv_arms g).
+  has_arm (ARecv "tr.serveDone") (frecv_arms g) &&
+  has_arm (ARecv "gone") (box_arms g).
 
 (** The shape of the pinned tree (before the repair), kept as a
     counter-model. *)
@@ -426,4 +464,5 @@ Definition legacy_cfg : cfg :=
         [ARecv "ctx.Done()"; ARecv "done"]
         [ASend "tr.pendingFetch"]
         [ARecv "ch"]
+        [ARecv "ctx.Done()"; ARecv "b.closed"; ARecv "b.ch"]
         128 5.
